@@ -161,3 +161,19 @@ def emit_traversals(R, namespace, path, note):
 def _bad(s, ty):
     from rusttok import TranslateError
     raise TranslateError("rspirv/binary/assemble.rs", f"impl Assemble for {ty}", f"unexpected statement {s}")
+
+
+def emit_decode(methods, hdr, namespace, path, note):
+    """decodeMethods : (method name, index into enums or masks, isMask, error variant name)"""
+    from rusttok import TranslateError
+    en = [e["name"] for e in hdr["enums"]]
+    mk = [m["name"] for m in hdr["masks"]]
+    f = LeanFile(namespace, [], note)
+    rows = []
+    for m in methods:
+        names = mk if m["mask"] else en
+        if m["type"] not in names:
+            raise TranslateError("rspirv/binary/autogen_decode_operand.rs", m["method"], f"unknown spirv type {m['type']}")
+        rows.append(f"({nc(m['method'])}, {names.index(m['type'])}, {'true' if m['mask'] else 'false'}, {nc(m['error'])})")
+    f.list_def("decodeMethods", "Nat × Nat × Bool × Nat", rows)
+    return write_if_changed(path, f.text())
